@@ -41,6 +41,7 @@
 import Y0.Lemmas.CfGraph
 import Y0.Lemmas.CfFscm
 import Y0.Lemmas.CfCgSem
+import Y0.Lemmas.CfLemma24
 
 namespace Y0.Cf
 open Relation MG
@@ -348,6 +349,51 @@ theorem lemma24For_root (M : Model) (G : MG Name) (hM : Compatible M G) (ν : Ba
     (ha : forced (worldOf ν a.ivs) a.name = none) (hb : forced (worldOf ν b.ivs) b.name = none) :
     Lemma24For M ν (ev, a, b) :=
   lemma24For_of_parents M G hM ν ev a b hname hv ha hb (fun _ _ p hp => by simp [hroot] at hp)
+
+/-! ## 3c. the probability clauses, UNCONDITIONALLY (Lemma 24 for the test as coded is proved in Lemmas/CfLemma24) -/
+
+open Fscm in
+/-- **C18, probability clauses.**  For every functional SCM `M` compatible with the (loop-free) graph `G`, all base values
+with `x ≠ x'`, every well-formed event dict and every iteration order of its worlds (a duplicate-free list of non-empty,
+consistent subscript sets): if the nodes of `G` are processed parents-first (what `topological_sort` delivers),
+  * the relabelled event returned by `make_counterfactual_graph` has the SAME probability as the original event, and
+  * 'inconsistent' is returned ONLY IF the original event has probability 0.
+The proof carries two invariants through the merge loop: every parent of every un-intervened node is represented by a
+parent node of equal value (on the noise points where the conjuncts about earlier variables hold), and every
+name-prefix-restricted support of the current event equals that of the original one; `lemma24_of_test` derives the
+conclusion of Lemma 24 from `lemma_24_holds(...) = True` under these invariants. -/
+theorem cg_prob (M : Model) (ν : BaseValues) (hν : ν.Distinct) (G : MG Name) (hM : Compatible M G) (hG : G.WF)
+    (hdl : ∀ e ∈ G.di, e.1 ≠ e.2) (hbl : ∀ e ∈ G.bi, e.1 ≠ e.2)
+    (ordf : List World → List World) (ev : Event) (hev : EvOK ev) (topo : List Name)
+    (htopo : G.topologicalSort = .ok topo) (hpf : ∀ v, ∀ p ∈ M.pa v, Before topo v p)
+    (hws : (ordf (extractInterventions ev.keys)).Nodup) (hwne : ∀ w ∈ ordf (extractInterventions ev.keys), w ≠ [])
+    (hwcs : ∀ w ∈ ordf (extractInterventions ev.keys), ConsistentSubs w) :
+    (∀ g ev', makeCounterfactualGraph ordf G ev = .ok (g, some ev') → probEvent M ν ev' = probEvent M ν ev) ∧
+    (∀ g, makeCounterfactualGraph ordf G ev = .ok (g, none) → probEvent M ν ev = 0) := by
+  let c : Ctx := ⟨M, ν, G, topo, ev⟩
+  have hc : c.OK := ⟨hM, hν, hpf⟩
+  have hinit : FullInv c (.run (cf0 G (ordf (extractInterventions ev.keys))) ev) :=
+    ⟨repInv_cfInit c hc hG hdl hbl _ hws hwne hwcs, ⟨fun _ _ _ => Iff.rfl, hev⟩⟩
+  have hinv : FullInv c (loopResult ordf G ev topo) := by
+    unfold loopResult
+    rw [mergeLoop_eq]
+    exact fullInv_runPairs c hc hdl _ (allPairs_ne _ hws hwne topo) _ hinit
+  constructor
+  · intro g ev' h
+    obtain ⟨topo', cf', anc, ht, hl, _, _⟩ := cg_some_shape h
+    rw [htopo] at ht
+    cases ht
+    rw [hl] at hinv
+    apply probEvent_congr
+    intro u
+    rw [← allHoldN_true, ← allHoldN_true]
+    exact hinv.2.sup (fun _ => True) (fun _ _ _ _ => trivial) u
+  · intro g h
+    obtain ⟨topo', ht, hl⟩ := cg_none_shape h
+    rw [htopo] at ht
+    cases ht
+    rw [hl] at hinv
+    exact hinv
 
 /-- the side conditions of `cg_prob_partial` on the worlds hold for the identity order (hence for every permutation of it) -/
 theorem extractInterventions_ok (vs : List Var) :
